@@ -62,7 +62,7 @@ Proof.
     destruct (N.eq_dec (a / P) (b / P)) as [Heq|Hne].
     + rewrite Heq. apply (dec_lt_prefix [b / P]).
       rewrite <- (be_mod k a), <- (be_mod k b). fold P. apply IH.
-      * pose proof (N.div_mod' a P). pose proof (N.div_mod' b P). nia.
+      * pose proof (N.div_mod' a P) as Da. pose proof (N.div_mod' b P) as Db. rewrite Heq in Da. lia.
       * apply N.mod_lt. lia.
     + apply dec_lt_hd. lia.
 Qed.
